@@ -18,6 +18,21 @@ open Mxl
 theorem C03_table_invalidates (m : Gen.Mut) (h : mustInvalidate m = true) : Gen.invalidates m = true :=
   table_invalidates m h
 
+/-- Why `mustInvalidate` is the right list, from the source: `_create_cache` reads (directly or through calls on
+    `self`) ALL seven dictionaries, so every write matters; every mutator whose own body writes a dictionary or a
+    component stored in one is in `mustInvalidate` (hence decorated, `C03_table_invalidates`); the others write
+    nothing themselves — their script consists of checks, loads, rejecting statements and calls of other mutators. -/
+theorem C03_table_must_invalidate :
+    Gen.cacheReads = ["_data", "_derived", "_parameters", "_reactions", "_readouts", "_surrogates", "_variables"] ∧
+    (∀ m, writesItself m = true → mustInvalidate m = true) ∧
+    (∀ m, mustInvalidate m = false → ∀ e ∈ Gen.script m,
+      (match e with | .check _ | .call _ | .load _ | .guard _ => true | _ => false) = true) ∧
+    (∀ m, ∀ c ∈ Gen.containers m, c ∈ Gen.cacheReads) := by
+  refine ⟨rfl, ?_, ?_, ?_⟩
+  · intro m; cases m <;> decide
+  · intro m; cases m <;> decide
+  · intro m; cases m <;> decide
+
 /-- the id is taken before the container is written in every `add_*`; the own container is consulted
     before the id is freed in every `remove_*`; the validating forms validate before they write -/
 theorem C03_table_order :
@@ -90,10 +105,10 @@ theorem C03_table_scripts :
       [.cwrite "_reactions" "pop", .rem],
       [.ins "readout", .cwrite "_readouts" "set"],
       [.cwrite "_readouts" "del", .rem],
-      [.check "_check_new_ids", .ins "surrogate", .write, .write, .write, .ins "surrogate",
+      [.check "_check_new_ids", .ins "surrogate", .write, .write, .write, .write, .ins "surrogate",
        .cwrite "_surrogates" "set"],
       [.guard "KeyError", .load "_surrogates", .load "_surrogates", .check "_check_new_ids", .write, .write, .write,
-       .rem, .ins "surrogate", .cwrite "_surrogates" "set"],
+       .write, .rem, .ins "surrogate", .cwrite "_surrogates" "set"],
       [.cwrite "_surrogates" "pop", .rem, .rem],
       [.ins "data", .cwrite "_data" "set"],
       [.guard "KeyError", .cwrite "_data" "set"],
@@ -112,13 +127,48 @@ theorem C03_table_guards :
     Gen.guards .update_surrogate = ["if v0 not in self._surrogates:; raise KeyError"] ∧
     Gen.guards .update_data = ["if v0 not in self._data:; raise KeyError"] ∧
     Gen.guards .make_parameter_dynamic =
-      ["for v4 in v2 or {}:; if v4 not in self._reactions and (not any((v5.stoichiometries.get(v4) for v5 in self._surrogates.values()))):; raise KeyError",
+      ["for v4 in v2 or {}:; if not any((v5.stoichiometries.get(v4) for v5 in self._surrogates.values())) and v4 not in self._reactions:; raise KeyError",
        "if v2 is not None:; for v4, v3 in v2.items():; v6 = False; if (v7 := self._reactions.get(v4)) is not None:; v6 = True; v7.stoichiometry[v0] = v3; else:; for v5 in self._surrogates.values():; if (v8 := v5.stoichiometries.get(v4)):; v6 = True; v8[v0] = v3; if not v6:; raise KeyError"] ∧
     (∀ m, m ∉ [Gen.Mut.update_parameter, .update_variable, .update_surrogate, .update_data, .make_parameter_dynamic] →
       Gen.guards m = []) := by
   refine ⟨rfl, rfl, rfl, rfl, rfl, ?_⟩
   intro m hm
   cases m <;> first | rfl | (exact absurd (by decide) hm)
+
+/-- The arguments the `_check_*` helpers are called with: the plural forms pass ALL their names (and their own
+    container); `add_surrogate` passes the surrogate's name followed by the outputs that will be registered (the
+    `outputs=` keyword when given, else the object's own); `update_surrogate` passes the new outputs and, as `replaced`, the
+    outputs registered so far — the model's `checkNewIds (ids without old.outs) new.outs`. -/
+theorem C03_table_check_args :
+    Gen.checkArgs .add_parameters = ["_check_new_ids(names=v0)"] ∧
+    Gen.checkArgs .add_variables = ["_check_new_ids(names=v0)"] ∧
+    Gen.checkArgs .remove_parameters = ["_check_known_names(container=self._parameters, names=v0)"] ∧
+    Gen.checkArgs .update_parameters = ["_check_known_names(container=self._parameters, names=v0)"] ∧
+    Gen.checkArgs .remove_variables = ["_check_known_names(container=self._variables, names=v0)"] ∧
+    Gen.checkArgs .update_variables = ["_check_known_names(container=self._variables, names=v0)"] ∧
+    Gen.checkArgs .add_surrogate = ["_check_new_ids(names=[v0, *(v1.outputs if v3 is None else v3)])"] ∧
+    Gen.checkArgs .update_surrogate = ["_check_new_ids(names=v1.outputs if v3 is None else v3, replaced=v5)"] ∧
+    (∀ m, m ∉ [Gen.Mut.add_parameters, .add_variables, .remove_parameters, .update_parameters, .remove_variables,
+        .update_variables, .add_surrogate, .update_surrogate] → Gen.checkArgs m = []) := by
+  refine ⟨rfl, rfl, rfl, rfl, rfl, rfl, rfl, rfl, ?_⟩
+  intro m hm
+  cases m <;> first | rfl | (exact absurd (by decide) hm)
+
+/-- The three surrogate mutators statement by statement (normal form).  `add_surrogate`: all names checked, the
+    surrogate's id, the keyword overrides written INTO the object, one id per output of the overridden object, store.
+    `update_surrogate`: unknown name rejected, the old outputs remembered BEFORE the object is replaced / overridden, new
+    outputs checked against the ids minus the old ones, overrides, old ids removed, new ids inserted, store.
+    `remove_surrogate`: pop (KeyError for an unknown name) before any id is freed, then the name and every output.
+    In both forms the passed object is COPIED before the overrides are written (`v1 = copy.copy(v1)`): the caller's
+    object keeps its content, and the stoichiometry dictionaries (edited in place by `remove_variable` /
+    `make_parameter_dynamic`) are the model's own — the value semantics of the model's `Sur` arguments (F-C03-12).
+    These are the bodies `addSurrogate` / `SurUpd.over`, `updateSurrogate` / `SurUpd.apply`, `removeSurrogate` follow. -/
+theorem C03_table_surrogate_bodies :
+    Gen.surrogateBodies =
+    [
+  ("add_surrogate", ["self._check_new_ids(names=[v0, *(v1.outputs if v3 is None else v3)], ctx='surrogate')", "self._insert_id(name=v0, ctx='surrogate')", "v1 = copy.copy(v1)", "if v2 is not None:; v1.args = v2", "if v3 is not None:; v1.outputs = v3", "if v4 is not None:; v1.stoichiometries = v4", "v1.stoichiometries = {v5: dict(v6) for v5, v6 in v1.stoichiometries.items()}", "for v7 in v1.outputs:; self._insert_id(name=v7, ctx='surrogate')", "self._surrogates[v0] = v1", "return self"]),
+  ("update_surrogate", ["if v0 not in self._surrogates:; raise KeyError", "v5 = list(self._surrogates[v0].outputs)", "v1 = self._surrogates[v0] if v1 is None else copy.copy(v1)", "self._check_new_ids(names=v1.outputs if v3 is None else v3, ctx='surrogate', replaced=v5)", "if v2 is not None:; v1.args = v2", "if v3 is not None:; v1.outputs = v3", "if v4 is not None:; v1.stoichiometries = v4", "v1.stoichiometries = {v6: dict(v7) for v6, v7 in v1.stoichiometries.items()}", "for v8 in v5:; self._remove_id(name=v8)", "for v8 in v1.outputs:; self._insert_id(name=v8, ctx='surrogate')", "self._surrogates[v0] = v1", "return self"]),
+  ("remove_surrogate", ["v1 = self._surrogates.pop(v0)", "self._remove_id(name=v0)", "for v2 in v1.outputs:; self._remove_id(name=v2)", "return self"])] := rfl
 
 /-- "validate first": no mutator has a rejecting statement after its first write, except the final
     `if not target: raise` of `make_parameter_dynamic` (which the model carries as `setStoich`'s failure and
@@ -162,6 +212,9 @@ theorem C03_table_eq_fields :
 theorem C03_table_surface :
     (∀ r ∈ Gen.readers, r.1 ∈ modelledEntries ∨ r.1 ∈ outOfScope.map (·.1)) ∧
     (∀ n ∈ modelledEntries ++ outOfScope.map (·.1), n = "__eq__" ∨ n ∈ Gen.readers.map (·.1)) ∧
+    -- … in exactly one of the two lists, each name once
+    (∀ n ∈ modelledEntries, n ∉ outOfScope.map (·.1)) ∧ modelledEntries.Nodup ∧ (outOfScope.map (·.1)).Nodup ∧
+    (Gen.readers.map (·.1)).Nodup ∧
     Gen.properties = ["ids", "parameters", "variables", "derived", "reactions"] ∧
     Gen.privates = ["_create_cache", "_insert_id", "_check_new_ids", "_check_known_names", "_remove_id",
       "_scaled_value", "_get_args", "_get_args_time_course", "_get_right_hand_side"] ∧
@@ -170,7 +223,7 @@ theorem C03_table_surface :
     Gen.liveRefs = [("get_raw_parameters", "_parameters"), ("get_raw_variables", "_variables"),
       ("get_raw_derived", "_derived"), ("get_derived_variables", "_derived"), ("get_derived_parameters", "_derived"),
       ("get_raw_reactions", "_reactions"), ("get_raw_readouts", "_readouts"), ("get_raw_surrogates", "_surrogates")] := by
-  refine ⟨by decide, by decide, rfl, rfl, rfl⟩
+  refine ⟨by decide, by decide, by decide, by decide, by decide, by decide, rfl, rfl, rfl⟩
 
 /-- The model's classification of the query forms agrees with the source: a form the model answers from the cache
     stands for a method that does reach `self._cache`; a form the model answers WITHOUT a cache stands for a method
@@ -205,7 +258,7 @@ theorem C03_table_helpers :
       ("_check_new_ids", ["v3 = set(self._ids).difference(v2)",
         "for v4 in v0:; if v4 == 'time':; raise KeyError; if v4 in v3:; raise NameError; v3.add(v4)"]),
       ("_check_known_names", ["v3 = set()",
-        "for v4 in v0:; if v4 not in v1 or v4 in v3:; raise KeyError; v3.add(v4)"]),
+        "for v4 in v0:; if v4 in v3 or v4 not in v1:; raise KeyError; v3.add(v4)"]),
       ("_scaled_value", ["v2 = self._parameters[v0].value",
         "if isinstance(v2, InitialAssignment):; if (v3 := self._cache) is None:; v3 = self._create_cache(); v2 = v3.all_parameter_values[v0]",
         "return v2 * v1"]),
